@@ -124,6 +124,13 @@ def check_overlay(ck, R):
     okpe = okpe and len(pst) == 1 and A.norm(pst[0].targets[0].slice) == A.norm(pl.ast.target.elts[0])
     ck.ob(R, fa.key(pl.ast, "parent-entries"), okpe, "parent entries keep their type and content key and are marked from_parent" if okpe else
           "parent entries are not copied as (result_type, content_key, from_parent=True) under their own key", fa.where(pl.ast))
+    # every parent entry is copied: each iteration of the parent loop reaches the index store
+    if pst:
+        starts = [d for (d, l) in cfg.succ[pl.id] if l == "T"]
+        live = cfg.reach(starts, removed=fa.nodes(pst[0]))
+        okall = pl.id not in live
+        ck.ob(R, fa.key(pl.ast, "every-parent-entry"), okall, "every parent entry is copied into the merged index" if okall else
+              "an iteration of the parent loop can skip `index[k] = ...` (continue / early exit): such parent-only keys disappear from the stored child", fa.where(pl.ast))
     refs = [c for c in A.calls_in(pl.ast) if A.call_attr(c) == "reference"]
     okr = bool(refs) and all([A.norm(a) for a in c.args] == ["parent_data_source", "v.content_key", "v.content_key"] for c in refs)
     ck.ob(R, fa.key(pl.ast, "parent-referenced"), okr, "inherited objects are referenced in the target data source" if okr else
@@ -242,7 +249,34 @@ def check_index_tables(ck, R):
           "index entry encoding and decoding do not use matching codecs", de.where())
 
 
+def check_truthiness(ck, R):
+    """`if merge_parent:` / `if self._merge_parent:` test the object's truth value.  That is only
+    'is there a parent' as long as no Partition class defines __len__ / __bool__."""
+    sized = [c for c in PM.partition_classes(ck) + [ck.repo.cls("partition.Partition")] if "__len__" in c.methods or "__bool__" in c.methods]
+    tests = []
+    for q in [PM.STORE] + [c.qual + "." + m for c in PM.partition_classes(ck) for m in ("get", "list_keys") if m in c.methods]:
+        f = ck.repo.try_func(q)
+        if f is None:
+            continue
+        fx = FA(ck, f)
+        for n in fx.cfg.nodes:
+            if n.kind == "test":
+                for a in A.conj_atoms(n.ast) if not isinstance(n.ast, ast.BoolOp) or isinstance(n.ast.op, ast.And) else A.test_atoms(n.ast):
+                    if A.norm(a) in ("merge_parent", "self._merge_parent", "obj._merge_parent"):
+                        tests.append((fx, a))
+    ok = not sized or not tests
+    ck.ob(R, "partition::merge-parent-truthiness", ok,
+          "%d truthiness tests of a merge parent; no Partition class defines __len__/__bool__" % len(tests) if ok else
+          "%s define(s) __len__/__bool__, and %d sites test a merge parent by truth value (e.g. %s): a parent with no own keys counts as "
+          "'no parent', so a chain a <- b(empty) <- c loses a's keys" % ([c.name for c in sized], len(tests), tests[0][0].qual),
+          A.loc(sized[0], sized[0].node) if sized else "")
+
+
 def check(ck):
+    check_truthiness(ck, "C17.R4")
+    from .c11 import check_versioned_key_codec
+    ck.rule("C17.R6", "index entries' versioned keys are written as key#version and split at the last '#' (partition keys may contain '#')", 2)
+    check_versioned_key_codec(ck, "C17.R6")
     check_protocol(ck, "C17.R1")
     check_frame_rule(ck, "C17.R2")
     check_overlay(ck, "C17.R3")
